@@ -118,6 +118,8 @@ def english(canon, base):
 
 
 def classify(canon_text):
+    if not TranslateTap.available:
+        return "unclassified(tap-unavailable)"   # Locale.translate was renamed/moved: the mechanism cannot be told
     evs = [e for e in TranslateTap.events() if not e[2]]
     if not evs:
         return "not-applicable-to-locale"
